@@ -3,7 +3,7 @@
     Fsx/QidMapProofs.v, Fsx/QidConc.v. *)
 From Coq Require Import NArith String List.
 From P9V Require Import Base.Str gen.ConstGen gen.FsGen19 Fsx.Readdir Fsx.LocalDir Fsx.Paging Fsx.ReaddirProofs
-     Fsx.QidMap Fsx.QidMapProofs Fsx.Qid Fsx.Mode Fsx.LocalQidStable Fsx.LocalInfo Fsx.FsGenSpec19.
+     Fsx.QidMap Fsx.QidMapProofs Fsx.MountedListing Fsx.Qid Fsx.Mode Fsx.LocalQidStable Fsx.LocalInfo Fsx.FsGenSpec19.
 Import ListNotations.
 Open Scope list_scope.
 Open Scope N_scope.
@@ -63,6 +63,22 @@ Theorem C19_complete_local_server : forall q s msize count,
 Proof. exact local_server_complete. Qed.
 Print Assumptions C19_complete_local_server.
 
+(** a staticfs / composefs directory reached through any number of mounts ([d_wrap]: qidTransformFile wrappers, whose
+    Mapper tables change from call to call and are threaded through the loop), File.Readdir called directly: one call
+    returns name for name and Offset for Offset what readdir.Readdir returns, and the paged listing has every name once,
+    in order, at Offsets 1..n — from any Mapper state.  (The QIDs of the entries: C19_qids.) *)
+Theorem C19_mounted_call : forall s d off cnt es s',
+  dir_readdir s d off cnt = (es, s') ->
+  map name_off es = map name_off (static_readdir (fun _ => zero_qid) (map fst (d_ents d)) off cnt).
+Proof. exact dir_readdir_name_off. Qed.
+Print Assumptions C19_mounted_call.
+Theorem C19_complete_mounted_direct : forall s d cnt, 1 <= cnt ->
+  option_map (fun pages => map name_off (concat pages))
+    (page_loop_st (S (length (d_ents d))) (mounted_reader d cnt) s 0)
+  = Some (map name_off (number_from (fun _ => zero_qid) 0 (map fst (d_ents d)))).
+Proof. exact mounted_listing_complete. Qed.
+Print Assumptions C19_complete_mounted_direct.
+
 (** "every entry exactly once": the listed names are the directory's names in
     order; with distinct names each occurs at exactly one position *)
 Theorem C19_exactly_once : forall q names l, l = number_from q 0 names -> NoDup names ->
@@ -103,6 +119,31 @@ Theorem C19_static_new_ok : forall s g names fs qs s' w,
   stored_ok s' (mkDir fs (Some (stored_of qs)) w) /\ NoDup (map fst (d_ents (mkDir fs (Some (stored_of qs)) w))).
 Proof. exact static_new_stored_ok. Qed.
 Print Assumptions C19_static_new_ok.
+
+(** a mount whose own identity changes after the composefs was built (host directory replaced, file version moved on):
+    the composefs root keeps no table, so the listing made after the change agrees with Walk and GetAttr made after it
+    (the clause holds for the directory AS IT IS NOW, [dir_set_base n q' d]) ... *)
+Theorem C19_qids_mount_changed : forall s0 d n q' off cnt es s1 s2 e qw fw s3 s4 qg s5,
+  NoDup (map fst (d_ents d)) -> d_stored d = None ->
+  dir_readdir s0 (dir_set_base n q' d) off cnt = (es, s1) -> In e es ->
+  extends s1 s2 -> dir_walk s2 (dir_set_base n q' d) (d_name e) = Some (qw, fw, s3) ->
+  extends s3 s4 -> getattr s4 fw = (qg, s5) ->
+  qw = d_qid e /\ qg = d_qid e /\ d_type e = q_type (d_qid e) /\ s5 = s4.
+Proof. exact compose_live_after_change. Qed.
+Print Assumptions C19_qids_mount_changed.
+
+(** ... whereas a root answering Readdir from QIDs remembered at mount time would not (witness: one version bump) *)
+Theorem C19_mount_cache_refuted :
+  let d := mkDir [("log"%string, mkFile (mkQid 0 0 0) [(0, 0)%nat]); ("other"%string, mkFile (mkQid 0 0 0) [(0, 1)%nat])] None [] in
+  let '(dc, s0) := dir_cache_at_mount m_init d in
+  let q' := mkQid 0 1 0 in
+  let '(es, s1) := dir_readdir s0 (dir_set_base "log" q' dc) 0 10 in
+  match dir_walk s1 (dir_set_base "log" q' d) "log" with
+  | Some (qw, _, _) => map d_qid (filter (fun e => String.eqb (d_name e) "log") es) = [qw]
+  | None => False
+  end -> False.
+Proof. exact mount_cache_refuted. Qed.
+Print Assumptions C19_mount_cache_refuted.
 
 (** every history of QIDFor calls, of any length, only extends the tables (so it may stand between the calls above) *)
 Theorem C19_histories_extend : forall h s, extends s (run_history s h).
